@@ -166,6 +166,12 @@ def prop_scripted(case, r):
                 old = src['dt']
                 exp = old if prop_dt is None else limit(prop_dt, old, lim or {}, I['restart_time'] is not None)
                 got = nxt['dt']
+                requested = bool(e and e.get('restart'))
+                if prop_dt is not None and requested != (I['restart_time'] is not None):
+                    # request pending while the limiters ran, then cancelled (budget exhausted): both variants accepted
+                    alt = limit(prop_dt, old, lim or {}, requested)
+                    if abs(got - alt) <= 1e-12 * alt:
+                        exp = alt
                 if abs(got - exp) > 1e-12 * exp:
                     # the spreader may shorten steps to reach Tend (not part of the statement): legal only near the end
                     overshoot = nxt['time'] + (P + 1) * max(exp, old) > case['Tend'] - 1e-12
@@ -336,7 +342,9 @@ def prop_adaptive(case, r):
             # a rejected step is retried with a smaller step unless a configured lower limit binds
             lower = max(lim.get('dt_min', 0.0), old * lim.get('dt_slope_min', 0.0))
             if not (got < old):
-                r.check(abs(got - lower) <= 1e-12 * max(lower, 1e-300) and lower > 0, 'retry-not-smaller', f'block {b + 1}: rejected step retried with dt {got!r} (was {old!r}); lower bound {lower!r}; estimate {e!r} tol {tol!r}')
+                # not smaller is legal only if a configured lower limit binds, i.e. the retry is at (or, after the
+                # documented shortening to reach Tend, below) that bound
+                r.check(lower > 0 and got <= lower * (1 + 1e-12), 'retry-not-smaller', f'block {b + 1}: rejected step retried with dt {got!r} (was {old!r}); lower bound {lower!r}; estimate {e!r} tol {tol!r}')
         if e is None or not np.isfinite(e) or e <= 0 or nonconverged:
             continue
         k = order
@@ -347,6 +355,13 @@ def prop_adaptive(case, r):
         exp = limit(prop_dt, old, lim, restarted)
         if flavor == 'polynomial':
             continue  # order is a status variable of the estimator; formula checked for the other three flavours
+        requested = (e > tol) if conv_based else (e >= tol)
+        if requested != restarted:
+            # the step asked for a restart but its retry budget was exhausted (moved on): the limiters ran while the
+            # request was still pending; the statement does not say which variant applies, accept both
+            alt = limit(prop_dt, old, lim, requested)
+            if abs(got - alt) <= 1e-10 * alt:
+                continue
         if abs(got - exp) > 1e-10 * exp:
             overshoot = nxt['time'] + (P + 1) * max(exp, old) > case['Tend'] - 1e-12
             r.check(got < exp and overshoot, 'step-size-formula', f'block {b + 1}: dt {got!r}, expected {exp!r} = limits(beta*dt*(tol/e)^(1/{k})) with dt={old!r} e={e!r} tol={tol!r} beta={case["beta"]} limits={lim}')
